@@ -22,6 +22,7 @@ import (
 type c03Case struct {
 	Src   vstat.Q `json:"src"`
 	NoDet bool    `json:"no_determinism_check,omitempty"` // constructed shapes: one compile only
+	Reps  int     `json:"reps,omitempty"`                 // further compiles that must all give the first one's result (0: one further compile)
 }
 
 // dumpObject renders everything a compile produces, canonically.
@@ -122,21 +123,25 @@ func runC03(c c03Case) (*vstat.Failure, c03Res) {
 		}
 		return nil, res
 	}
-	o2, done := compileWithDeadline(src, deadline)
-	if !done {
-		res.hang = true
-		return vstat.Failf("compile-does-not-terminate", "second compile of the same source did not finish"), res
-	}
-	if o2.panic != nil {
-		return vstat.Failf("compile-panics", "second compile panics: %v", o2.panic), res
-	}
-	if (o.obj == nil) != (o2.obj == nil) {
-		return vstat.Failf("nondeterministic-verdict", "first compile accepted=%v, second accepted=%v", o.obj != nil, o2.obj != nil), res
+	for rep := 0; rep < max(c.Reps, 1); rep++ {
+		o2, done := compileWithDeadline(src, deadline)
+		if !done {
+			res.hang = true
+			return vstat.Failf("compile-does-not-terminate", "second compile of the same source did not finish"), res
+		}
+		if o2.panic != nil {
+			return vstat.Failf("compile-panics", "second compile panics: %v", o2.panic), res
+		}
+		if (o.obj == nil) != (o2.obj == nil) {
+			return vstat.Failf("nondeterministic-verdict", "first compile accepted=%v, compile %d accepted=%v", o.obj != nil, rep+2, o2.obj != nil), res
+		}
+		if o.obj != nil {
+			if a, b := dumpObject(o.obj), dumpObject(o2.obj); a != b {
+				return vstat.Failf("nondeterministic-object", "two compiles of the same source differ:\n%s", firstDiff(a, b)), res
+			}
+		}
 	}
 	if o.obj != nil {
-		if a, b := dumpObject(o.obj), dumpObject(o2.obj); a != b {
-			return vstat.Failf("nondeterministic-object", "two compiles of the same source differ:\n%s", firstDiff(a, b)), res
-		}
 		res.class = "accepted"
 	} else {
 		// the statement is about the verdict and the produced code; the order of error
@@ -406,6 +411,10 @@ func TestC03(t *testing.T) {
 				return true
 			}
 			c := c03Case{Src: vstat.Q(src), NoDet: nshape%8 != 0}
+			if kind == "capture-group-names" {
+				// name resolution walks symbol tables: compile several times
+				c.NoDet, c.Reps = false, 8
+			}
 			f, res := runC03(c)
 			record(c, res)
 			st.Class("shape:" + kind)
@@ -594,6 +603,27 @@ func c03Shapes(thorough bool, emit func(kind, src string) bool) {
 			}
 			if k == n {
 				break
+			}
+		}
+	}
+	// capture groups whose names look like indices, repeat, or shadow each
+	// other, referred to by index and by name, directly and through a decorator
+	pats := []string{`(a)(?P<1>b)`, `(?P<1>a)(b)`, `(?P<2>a)(b)`, `(?P<0>a)(b)`, `(?P<x>a)(?P<x>b)`, `(?P<x>a)(b)(?P<3>c)`, `(?P<_>a)(b)`, `(?P<01>a)(b)`, `(?P<w>a)(?P<1>b)(c)`, `(?P<x>a)|(?P<y>b)`, `((?P<x>a)(b))`}
+	refs := []string{"$0", "$1", "$2", "$3", "$x", "$w", "$01", "$_"}
+	frames := []string{
+		"/%P/ {\n  d[%R]++\n}\n",
+		"def deco {\n  /%P/ {\n    next\n  }\n}\n@deco {\n  d[%R]++\n}\n",
+		"def deco {\n  /%P/ {\n    next\n  }\n}\n@deco {\n  /(z)/ {\n    d[%R]++\n  }\n}\n",
+		"/%P/ {\n  /(?P<x>q)(r)/ {\n    d[%R]++\n  }\n}\n",
+		"/(z)/ && $0 =~ /%P/ {\n  d[%R]++\n}\n",
+	}
+	for _, pt := range pats {
+		for _, r := range refs {
+			for _, fr := range frames {
+				src := "counter d by k\n" + strings.ReplaceAll(strings.ReplaceAll(fr, "%P", pt), "%R", r)
+				if !emit("capture-group-names", src) {
+					return
+				}
 			}
 		}
 	}
